@@ -138,10 +138,156 @@ pub fn check(case: &StreamCase) -> Outcome {
     out
 }
 
+/// Hand-assembled streams (frames re-headed through the public constructors; variable blocking with block sizes that
+/// change from frame to frame): the independent decoders must still return the input.
+#[derive(Clone, Debug, serde::Serialize, serde::Deserialize)]
+pub struct AsmCase {
+    pub base: StreamCase,
+    pub asm: super::assembled::Asm,
+}
+
+pub fn check_assembled(c: &AsmCase) -> Outcome {
+    let mut out = Outcome::new(c.base.fp() ^ crate::util::fnv(format!("{:?}", c.asm).as_bytes()));
+    out.class(format!("assembled:variable={}:ragged={}", c.asm.variable, c.asm.ragged));
+    let samples = c.base.inp.samples();
+    let (stream, sizes) = match super::assembled::build(&c.base, &c.asm, &samples) {
+        Ok(x) => x,
+        Err(RunErr::Panic(p)) => {
+            out.viol(p.sig(), format!("panic while assembling a stream from encoded frames: {} at {}", p.msg, p.loc));
+            return out;
+        }
+        Err(RunErr::EncodeErr(e)) if e.starts_with("FrameHeader::new") || e.starts_with("Frame::new") => {
+            // a constructor may refuse (e.g. a sample rate without a header code): nothing to decode
+            out.class("skipped:constructor-refuses-the-header");
+            return out;
+        }
+        Err(e) => {
+            out.viol("assembly-of-valid-frames-refused", format!("{e:?}"));
+            return out;
+        }
+    };
+    let bytes = match crate::util::catch(|| enc::stream_bytes(&stream, enc::sane_bits(samples.len() + 4096, c.base.inp.bps))) {
+        Ok(Ok(b)) => b,
+        Ok(Err(e)) if e.starts_with("oversized") => {
+            out.class("skipped:oversized");
+            return out;
+        }
+        Ok(Err(e)) => {
+            out.viol("write-error", e);
+            return out;
+        }
+        Err(p) => {
+            out.viol(p.sig(), p.msg);
+            return out;
+        }
+    };
+    let tr = refdec::decode(&bytes, None);
+    if let Some(f) = &tr.fatal {
+        out.viol(format!("refdec-fatal:{}", normalise(f)), format!("reference decoder cannot decode the assembled stream (block sizes {:?}): {f}", &sizes[..sizes.len().min(8)]));
+        return out;
+    }
+    if tr.samples != samples || tr.frames.iter().map(|f| f.block_size).collect::<Vec<_>>() != sizes {
+        let at = tr.samples.iter().zip(samples.iter()).position(|(a, b)| a != b);
+        out.viol("sample-mismatch:assembled", format!("decoded {} samples vs {} input samples, first difference at {:?}; block sizes {:?}", tr.samples.len(), samples.len(), at, &sizes[..sizes.len().min(8)]));
+        return out;
+    }
+    if c.asm.variable {
+        // start-sample numbers must be the running sum of the block sizes
+        let mut sum = 0u64;
+        for f in &tr.frames {
+            if !f.variable || f.number != sum {
+                out.viol("assembled:start-sample-number-wrong", format!("frame starting at sample {sum} is numbered {} (variable bit {})", f.number, f.variable));
+                return out;
+            }
+            sum += f.block_size as u64;
+        }
+    }
+    match enc::claxon_decode(&bytes) {
+        Ok((s, _)) => {
+            if s != samples {
+                out.viol("claxon-sample-mismatch:assembled", "claxon decodes different samples".to_string());
+                return out;
+            }
+            out.class("claxon:agrees");
+        }
+        Err(_) => out.class("claxon:rejects-assembled-stream"),
+    }
+    out.nontrivial = sizes.len() >= 2;
+    if c.asm.variable && sizes.len() >= 3 && sizes.windows(2).any(|w| w[0] != w[1]) {
+        out.class("assembled:variable:>=3-frames-of-differing-size");
+    }
+    out
+}
+
+/// A source that delivers its samples in packets (a read never crosses a packet boundary, so reads in mid-stream may be
+/// shorter than the block size; the `Source` documentation does not forbid that). Whatever frame layout results, the
+/// audio must come back complete.
+#[derive(Clone, Debug, serde::Serialize, serde::Deserialize)]
+pub struct PacketCase {
+    pub base: StreamCase,
+    pub packet: usize,
+    pub hint: bool,
+}
+
+pub fn check_packet(c: &PacketCase) -> Outcome {
+    let b = &c.base;
+    let mut out = Outcome::new(b.fp() ^ (c.packet as u64) << 20 ^ c.hint as u64);
+    let samples = b.inp.samples();
+    let (ch, bps, rate, block) = (b.inp.channels, b.inp.bps, b.inp.rate, b.cfg.block_size);
+    for multi in [false, true] {
+        let mut cfg = b.cfg.clone();
+        cfg.multithread = multi;
+        cfg.workers = if multi { Some(1 + (b.inp.seed % 3) as usize) } else { None };
+        let Ok(vcfg) = enc::verified(&cfg) else {
+            out.class("skipped:config-rejected");
+            return out;
+        };
+        let r = crate::util::catch(|| {
+            let mut src = enc::TestSource::new(&samples, ch, bps, rate, if b.src == enc::SrcKind::Bytes { enc::SrcKind::Bytes } else { enc::SrcKind::Int });
+            src.packet = c.packet;
+            src.hint = c.hint;
+            flacenc::encode_with_fixed_block_size(&vcfg, src, block).map_err(|e| format!("{e:?}")).and_then(|s| enc::stream_bytes(&s, enc::sane_bits(samples.len() + 4096, bps)))
+        });
+        let mode = if multi { "multi" } else { "single" };
+        let bytes = match r {
+            Ok(Ok(x)) => x,
+            Ok(Err(e)) if e.starts_with("oversized") => {
+                out.class("skipped:oversized");
+                return out;
+            }
+            Ok(Err(e)) => {
+                out.viol(format!("encode-error-on-valid-input:packet-source:{mode}"), e);
+                return out;
+            }
+            Err(p) => {
+                out.viol(p.sig(), format!("panic while encoding from a packet source ({mode}): {} at {}", p.msg, p.loc));
+                return out;
+            }
+        };
+        let tr = refdec::decode(&bytes, None);
+        if let Some(f) = &tr.fatal {
+            out.viol(format!("refdec-fatal:{}", normalise(f)), format!("packet source ({mode}, packets of {}): {f}", c.packet));
+            return out;
+        }
+        if tr.samples != samples || tr.info.total as usize != b.inp.len {
+            out.viol(format!("sample-mismatch:packet-source:{mode}"), format!("packets of {} samples, block {block}: decoded {} of {} values, STREAMINFO total {} of {}", c.packet, tr.samples.len(), samples.len(), tr.info.total, b.inp.len));
+            return out;
+        }
+    }
+    let frames = enc::frames_of(b.inp.len, block, c.packet);
+    out.nontrivial = frames > (b.inp.len + block - 1) / block;
+    if out.nontrivial {
+        out.class("packet-source:short-reads-in-mid-stream");
+    }
+    out
+}
+
 pub fn run(ctx: &Ctx) {
     ctx.rule(
         "cases = (valid config, valid PCM input descriptor, entry point in {single, multi(real threads), frame-level}, source kind); \
          the stream is also written into MemSink<u64> (behind 0..2 stray bytes) and into a user sink with only the required operations: same bytes; \
+         family assembled: frames of the frame-level entry point re-headed through the public constructors into fixed- and variable-blocking streams (block sizes changing from frame to frame), decoded by both independent decoders; \
+         family packet-source: sources whose reads in mid-stream are shorter than the block size, single- and multi-thread: the decoded audio and the stated total must be complete (the frame layout is not judged); \
          family blocklen-sweep: every block length 1..=32767 once (one frame of that length; complete enumeration of the block-size code space); \
          non-trivial = at least one FIXED/LPC subframe or a stereo decorrelation mode or bps != 16 or a short final block; distinct by hash of the whole case",
     );
@@ -155,6 +301,22 @@ pub fn run(ctx: &Ctx) {
     ctx.search("stream-heavy", 16, per / 2, &|| stream_case_strategy(co, io, true), check);
     // LPC stress: ill-conditioned predictors (i64 fallback, coefficient clamps, huge residuals)
     ctx.search("lpc-stress", 16, per, &|| lpc_stress_case_strategy(), check);
+    {
+        use proptest::prelude::*;
+        ctx.search("assembled", 16, per / 2, &|| {
+            (stream_case_strategy(CfgOpts { max_block: 1200, ..Default::default() }, InOpts { budget: 9000, ..Default::default() }, false), any::<u64>(), prop_oneof![3 => Just(true), 1 => Just(false)], any::<bool>()).prop_map(|(mut base, seed, variable, ragged)| {
+                base.entry = Entry::Frames;
+                base.cfg.multithread = false;
+                AsmCase { base, asm: super::assembled::Asm { variable, ragged: ragged && variable, seed, first: 0 } }
+            })
+        }, check_assembled);
+    }
+    {
+        use proptest::prelude::*;
+        ctx.search("packet-source", 16, per / 3, &|| {
+            (stream_case_strategy(CfgOpts { max_block: 600, ..Default::default() }, InOpts { budget: 6000, ..Default::default() }, false), 1usize..=900, any::<bool>()).prop_map(|(base, packet, hint)| PacketCase { base, packet, hint })
+        }, check_packet);
+    }
     // every block length 1..=32767 once: one frame of that many samples (the block-size code table is finite and has
     // special members; a sampled block size hits one given member with probability 3e-5)
     {
@@ -178,6 +340,12 @@ pub fn run(ctx: &Ctx) {
 }
 
 pub fn replay(path: &str) -> Result<Outcome, String> {
-    let (_k, case): (String, StreamCase) = crate::core::load_replay(path)?;
-    Ok(check(&case))
+    let (kind, case) = crate::core::replay_kind(path)?;
+    if kind == "packet-source" {
+        return Ok(check_packet(&serde_json::from_value(case).map_err(|e| e.to_string())?));
+    }
+    if kind == "assembled" {
+        return Ok(check_assembled(&serde_json::from_value(case).map_err(|e| e.to_string())?));
+    }
+    Ok(check(&serde_json::from_value(case).map_err(|e| e.to_string())?))
 }
